@@ -253,18 +253,42 @@ def parse_fun_of_strings(txt):
 # ----------------------------------------------------------------------------------------------
 # harness runs + trace validation
 
-def run_harness(scenarios, name, profile="debug", timeout=1800):
-    exe = build_harness(profile)
-    d = os.path.join(WORK, "runs")
-    os.makedirs(d, exist_ok=True)
+CRASH_SIGNALS = {-11: "SIGSEGV", -7: "SIGBUS", -6: "SIGABRT", -4: "SIGILL"}
+
+
+def _harness_once(exe, d, scenarios, name, timeout):
     scn_path = os.path.join(d, name + ".scn.ndjson")
     trace_path = os.path.join(d, name + ".trace.ndjson")
     sum_path = os.path.join(d, name + ".sum.json")
     with open(scn_path, "w") as f:
         for s in scenarios:
             f.write(json.dumps(s) + "\n")
-    t0 = time.time()
     p = sh([exe, "run", scn_path, trace_path, sum_path], cwd=d, timeout=timeout, check=False)
+    return p, trace_path, sum_path
+
+
+def run_harness(scenarios, name, profile="debug", timeout=1800, crashes=None):
+    """runs the scenarios on the real code.  If the process is killed by a memory-fault signal while it executes the code under test, the
+       scenario(s) responsible are identified (each scenario re-run in a process of its own, deterministically) and handed back in
+       `crashes` (a list the caller provides) -- the remaining scenarios are run and returned as usual."""
+    exe = build_harness(profile)
+    d = os.path.join(WORK, "runs")
+    os.makedirs(d, exist_ok=True)
+    t0 = time.time()
+    p, trace_path, sum_path = _harness_once(exe, d, scenarios, name, timeout)
+    if p.returncode in CRASH_SIGNALS and crashes is not None:
+        good = []
+        for i, s in enumerate(scenarios):
+            p1, _, _ = _harness_once(exe, d, [s], "%s.iso%d" % (name, i), timeout)
+            if p1.returncode in CRASH_SIGNALS:
+                crashes.append({"scenario": s, "signal": CRASH_SIGNALS[p1.returncode]})
+            elif p1.returncode != 0:
+                raise ToolError("harness run failed (%d) on %s / %s:\n%s" % (p1.returncode, name, s.get("id"), p1.stdout[-3000:]))
+            else:
+                good.append(s)
+        if not crashes:
+            raise ToolError("harness run was killed by %s on %s, but no single scenario reproduces it" % (CRASH_SIGNALS[p.returncode], name))
+        p, trace_path, sum_path = _harness_once(exe, d, good, name, timeout)
     if p.returncode != 0:
         raise ToolError("harness run failed (%d) on %s:\n%s" % (p.returncode, name, p.stdout[-3000:]))
     summary = json.load(open(sum_path))
@@ -533,7 +557,12 @@ class Check:
             trace, runs = run_free(free_cases, "%s_%s" % (self.prop, name))
             summ = {"scenarios": [{"id": x.get("id"), "mode": "free-running", "threads": x.get("threads"), "rounds": x.get("rounds"), "runs": x.get("runs")} for x in free_cases]}
         else:
-            trace, runs, summ = run_harness(scenarios, "%s_%s" % (self.prop, name), profile)
+            crashes = []
+            trace, runs, summ = run_harness(scenarios, "%s_%s" % (self.prop, name), profile, crashes=crashes)
+            for cr in crashes:
+                # the process executing the real code died of a memory fault: no property holds on such an execution
+                self.violation("the real code crashed with %s while executing scenario %s (memory fault inside the code under test)" % (cr["signal"], cr["scenario"].get("id")),
+                               {"scenario": cr["scenario"], "run": None, "events": [], "module": module, "consts": {k: tla_val(q) for k, q in consts.items()}, "invariant": "NoCrash", "crash": cr["signal"]})
         v = validate_trace(trace, runs, module, consts, "%s_%s_%s" % (self.prop, name, module), parallel=parallel)
         # the trace specification is itself explored by TLC: one state / one transition per matched event of every recorded behaviour
         self.tv_states += v["states"]
@@ -555,6 +584,10 @@ class Check:
             self.samples.append(s)
 
     def violation(self, what, replay):
+        if len(self.violations) >= 40:
+            # enough replay files: further violations of this run are only counted
+            self.extra["violations_not_written"] = self.extra.get("violations_not_written", 0) + 1
+            return None
         d = os.path.join(self.dir, "violations")
         os.makedirs(d, exist_ok=True)
         h = hashlib.sha1(json.dumps(replay, sort_keys=True).encode()).hexdigest()[:10]
